@@ -60,7 +60,9 @@ func genScript(rt *rapid.T) Script {
 			{Kind: wire.Stateful}, {Kind: wire.Stateful, Store: true},
 		}).Draw(rt, "link")
 	}
-	kinds := []string{"progress", "progress", "roots", "tool", "tool", "ping", "list"}
+	// "abandoned": a call (prompts/list) whose caller gives up after a few milliseconds, typically while it
+	// is still waiting behind a slow notification handler on the other side
+	kinds := []string{"progress", "progress", "roots", "tool", "tool", "ping", "list", "abandoned"}
 	if s.Dir == "s2c" {
 		kinds = []string{"sprogress", "sprogress", "slog", "sping", "sroots", "ssample", "ssample"}
 	}
@@ -140,7 +142,7 @@ type toolIn struct {
 }
 
 var methodOf = map[string]string{
-	"progress": "notifications/progress", "roots": "notifications/roots/list_changed", "tool": "tools/call", "ping": "ping", "list": "tools/list",
+	"progress": "notifications/progress", "roots": "notifications/roots/list_changed", "tool": "tools/call", "ping": "ping", "list": "tools/list", "abandoned": "prompts/list",
 	"sprogress": "notifications/progress", "slog": "notifications/message", "sping": "ping", "sroots": "roots/list", "ssample": "sampling/createMessage",
 }
 
@@ -181,7 +183,7 @@ func runInBubble(s Script) (res vt.Result) {
 	slow := func(next mcp.MethodHandler) mcp.MethodHandler {
 		return func(ctx context.Context, method string, req mcp.Request) (mcp.Result, error) {
 			switch method {
-			case "tools/call", "ping", "tools/list", "notifications/progress", "notifications/roots/list_changed", "notifications/message", "roots/list", "sampling/createMessage":
+			case "tools/call", "ping", "tools/list", "prompts/list", "notifications/progress", "notifications/roots/list_changed", "notifications/message", "roots/list", "sampling/createMessage":
 				sleepFor(ctx, method, req)
 			}
 			return next(ctx, method, req)
@@ -191,6 +193,7 @@ func runInBubble(s Script) (res vt.Result) {
 	server := mcp.NewServer(&mcp.Implementation{Name: "srv", Version: "1"}, &mcp.ServerOptions{
 		ProgressNotificationHandler: func(context.Context, *mcp.ProgressNotificationServerRequest) {},
 		RootsListChangedHandler:     func(context.Context, *mcp.RootsListChangedRequest) {},
+		HasPrompts:                  true,
 	})
 	mcp.AddTool(server, &mcp.Tool{Name: "t"}, func(ctx context.Context, req *mcp.CallToolRequest, in toolIn) (*mcp.CallToolResult, any, error) {
 		return &mcp.CallToolResult{Content: []mcp.Content{&mcp.TextContent{Text: "ok"}}}, nil, nil
@@ -282,6 +285,9 @@ func runInBubble(s Script) (res vt.Result) {
 		k := counts[m]
 		counts[m]++
 		fmt.Fprintf(&desc, "%s%d,", it.Kind, durClass(it.DurMs))
+		if it.Kind == "abandoned" {
+			res.Class("call_abandoned_by_its_caller")
+		}
 		if it.CallBack {
 			desc.WriteString("cb,")
 			res.Class("notification_handler_calls_back")
@@ -307,6 +313,10 @@ func runInBubble(s Script) (res vt.Result) {
 					cs.Ping(ctx, nil)
 				case "list":
 					cs.ListTools(ctx, nil)
+				case "abandoned":
+					actx, cancel := context.WithTimeout(ctx, time.Duration(1+i%4)*time.Millisecond)
+					cs.ListPrompts(actx, nil)
+					cancel()
 				case "sping":
 					ss.Ping(ctx, nil)
 				case "sroots":
@@ -366,6 +376,9 @@ func runInBubble(s Script) (res vt.Result) {
 	}
 	nt, overlapped := false, false
 	for i, n := range sentItems {
+		if n.kind == "abandoned" {
+			continue // may or may not reach a handler; it is not a notification and is never judged
+		}
 		rn := lookup(n)
 		if rn == nil {
 			if s.Link.Kind == wire.Stateless {
@@ -392,6 +405,9 @@ func runInBubble(s Script) (res vt.Result) {
 			nt = true
 		}
 		for j := i + 1; j < len(sentItems); j++ {
+			if sentItems[j].kind == "abandoned" {
+				continue // which of them were dispatched is unknown: ordinals cannot be matched
+			}
 			rm := lookup(sentItems[j])
 			if rm == nil {
 				continue
